@@ -555,7 +555,17 @@ func conTypes() []*conType {
 			opSpec{"StartsWith", "StartsWith(a)+drain", func(i any) string { q, _ := i.(T).StartsWith("a"); return drain(q) }},
 			opSpec{"LongestPrefix", "LongestPrefix(abc)", func(i any) string { p, _ := i.(T).LongestPrefix("abc"); return p }},
 		)
-		for _, c := range [][]string{{}, {"a"}, {"ab", "b"}} {
+		// keys past a length threshold (round 7: C01-14, a last-lookup memo for keys of 12 bytes or more,
+		// written under the read lock), as methods of their own so that the short-key variants stay
+		for _, k := range []string{"a-key-of-16-byte", "another-long-key-of-27-byte"} {
+			k := k
+			t.extra = append(t.extra,
+				opSpec{"Get/long-key", fmt.Sprintf("Get(%s)", k), func(i any) string { v, ok := i.(T).Get(k); return fmt.Sprint(v, ok) }},
+				opSpec{"Contains/long-key", fmt.Sprintf("Contains(%s)", k), func(i any) string { return fmt.Sprint(i.(T).Contains(k)) }},
+				opSpec{"Put/long-key", fmt.Sprintf("Put(%s,1)", k), func(i any) string { i.(T).Put(k, 1); return "" }},
+			)
+		}
+		for _, c := range [][]string{{}, {"a"}, {"ab", "b"}, {"a", "a-key-of-16-byte", "another-long-key-of-27-byte"}} {
 			c := c
 			t.inits = append(t.inits, initSpec{fmt.Sprint(c), func() any {
 				tr := trie.New[string, int](queue.New[string]())
